@@ -74,7 +74,8 @@ static std::string keyword(const MIP_Problem& p) {
 
 static void print_state() {
   std::cout << "s " << keyword(*mip) << " "; print_pt(std::cout, mip->last_generator, mip->space_dimension());
-  std::cout << " ok " << (mip->OK() ? 1 : 0) << " ncs " << mip->input_cs.size() << "\n";
+  int ok; try { ok = mip->OK() ? 1 : 0; } catch (const std::exception&) { ok = 2; }   // 2: OK() itself threw
+  std::cout << " ok " << ok << " ncs " << mip->input_cs.size() << "\n";
 }
 static void print_fresh() {
   std::cout << "f solve ";
@@ -82,7 +83,8 @@ static void print_fresh() {
     MIP_Problem_Status st = p->solve(); std::cout << status_name(st);
     if (st == OPTIMIZED_MIP_PROBLEM) { Coefficient n, d; p->optimal_value(n, d); std::cout << " val " << n << " " << d << " "; print_pt(std::cout, p->optimizing_point(), data.dim); }
     else if (st == UNBOUNDED_MIP_PROBLEM) { std::cout << " "; print_pt(std::cout, p->feasible_point(), data.dim); }
-    std::cout << " ok " << (p->OK() ? 1 : 0);
+    int ok; try { ok = p->OK() ? 1 : 0; } catch (const std::exception&) { ok = 2; }
+    std::cout << " ok " << ok;
     delete p; }
   { MIP_Problem* p = fresh();
     bool b = p->is_satisfiable(); std::cout << " sat " << (b ? 1 : 0);
